@@ -26,7 +26,7 @@ pub fn meta() -> PropMeta {
         nontrivial_floor: 0.25,
         run,
         replay,
-        crashy: false,
+        crashy: true,
     }
 }
 
@@ -518,7 +518,7 @@ fn case(_ctx: &ShardCtx, c: &Case, obs: &mut Obs) -> Result<(), String> {
 
 fn run(ctx: &ShardCtx, rep: &mut Report) {
     MAX_SHRINK_ITERS.store(400, std::sync::atomic::Ordering::Relaxed);
-    pt_run(ctx, rep, "identifiers", ctx.budget(12_000, 600_000), case_strategy(), |c, o| case(ctx, c, o));
+    pt_run(ctx, rep, "identifiers", ctx.budget(60_000, 3_000_000), case_strategy(), |c, o| case(ctx, c, o));
 }
 
 fn replay(_variant: &str, case_json: &Json) -> Result<(), String> {
